@@ -315,6 +315,20 @@ def check_gravity(ctx, E, R, P, ekey, lats, hs, clsname):
                 ctx.expect(g < prev, 'normal_gravity strictly decreases with height', hkey, g, f'< {prev!r}')
             prev = g
         ctx.outcome((round(G[(lat, 0.0)] / R.g_sphere, 9) if G[(lat, 0.0)] == G[(lat, 0.0)] else 'nan'))
+    # the whole latitude grid at once as ONE array, twice on the same array object: equal to the scalar answers, array untouched
+    import numpy as _np
+    larr = _np.array([float(x) for x in lats]); lcopy = larr.copy()
+    for rep in (1, 2):
+        for hu in hs[:2]:
+            try:
+                v = _np.asarray(E.normal_gravity(larr, hu * a) if hu != 0.0 else E.normal_gravity(larr), float)
+                exp = _np.array([G[(lat, hu)] for lat in lats])
+                ok = v.shape == exp.shape and bool(_np.all(_np.abs(v - exp) <= TOL * _np.abs(exp)))
+                ctx.expect(ok, 'normal_gravity(latitude array, h) = the scalar answers, on every call', f'{ekey} call#{rep} h={hu:g}a', v[:3], exp[:3], TOL)
+            except Exception as ex:
+                ctx.evals += 1
+                ctx.fail('normal_gravity(latitude array) raises', f'{ekey} call#{rep} h={hu:g}a', f'{type(ex).__name__}: {ex}'[:160], 'an array')
+    ctx.expect(bool(_np.array_equal(larr, lcopy)), 'normal_gravity leaves the latitude array as it was', ekey, larr[:3], lcopy[:3])
     # laws that relate grid points
     for lat in lats:
         for hu in hs:
